@@ -6,12 +6,14 @@ import (
 	"encoding/json"
 	"fmt"
 	"strings"
+	"time"
 
 	"golang.org/x/crypto/ssh"
 
 	"github.com/theparanoids/ysshra/gensign"
 	"github.com/theparanoids/ysshra/internal/zzverif/ev"
 	"github.com/theparanoids/ysshra/internal/zzverif/fix"
+	"github.com/theparanoids/ysshra/internal/zzverif/introspect"
 	"github.com/theparanoids/ysshra/internal/zzverif/uagent"
 )
 
@@ -36,6 +38,9 @@ func c04Expect(first string) string {
 	case "":
 		return "nil"
 	case "agent":
+		if len(p) > 2 && p[2] == uagent.FaultWrongType {
+			return "Panic" // the agent client panics on a reply of the wrong type; Run must turn that into a Panic error
+		}
 		switch p[1] {
 		case "auth":
 			return "AllAuthFailed"
@@ -114,6 +119,34 @@ func c04Run(c *ev.Ctx, k c04Case) {
 	if esc != "" {
 		c.Violation("C04:crash:"+ev.PanicSite(esc), "a panic escaped gensign.Run:\n"+esc, k)
 		return
+	}
+	// "the process keeps running": the handler object must be usable afterwards - no lock of its own left held by the
+	// failed run, and (real handler) a following fault-free run on the SAME handler completes and succeeds
+	if k.Handler == "real" && !k.NilHandler && !k.NilAttrs && e.handler != nil {
+		if held := introspect.LocksHeld(e.handler); len(held) > 0 {
+			c.Violation("C04:lock-left-held", fmt.Sprintf("after the run (first fault %v) the handler still holds %v: a later run on the same handler would block for ever", e.events, held), k)
+			return
+		}
+		if len(e.events) > 0 {
+			saved := append([]string{}, e.events...)
+			e.ua.Plan, e.ca.Script = map[int]string{}, map[int]string{}
+			type res struct {
+				err error
+				esc string
+			}
+			done := make(chan res, 1)
+			go func() { er, es := e.run(p, hs); done <- res{er, es} }()
+			select {
+			case r := <-done:
+				if r.esc != "" || (r.err != nil && !strings.Contains(strings.Join(saved, " "), "close") && !strings.Contains(strings.Join(saved, " "), "oversized") && !strings.Contains(strings.Join(saved, " "), "huge")) {
+					c.Violation("C04:run-after-failed-run-fails", fmt.Sprintf("after a run that failed (%v) a fault-free run on the same handler failed: %v %s", saved, r.err, r.esc), k)
+				}
+			case <-time.After(60 * time.Second):
+				c.Violation("C04:run-after-failed-run-never-returns", fmt.Sprintf("after a run that failed (%v) a fault-free run on the same handler did not return within 60 s", saved), k)
+				return
+			}
+			e.events = saved
+		}
 	}
 	first := ""
 	if len(e.events) > 0 {
@@ -200,7 +233,7 @@ func faultClass(first string) string {
 
 func checkC04(c *ev.Ctx) {
 	defer cleanupScratch()
-	c.Rule("deviation-bounded fault enumeration over the real gensign.Run: default = everything succeeds; deviations = {failure, close, empty, unknown type, truncated, oversized} at every forwarded-agent request index (challenge, private-key add, list, removes, certificate adds) for CA replies of 1..3 certificates and 0/2 certificates of an earlier run; CA error/panic at every call; stub-handler faults in Name/Authenticate/Generate/CSRs/AddCertsToAgent for 1..2 keys x 1..2 requests; nil attributes / nil handler (panic inside the handler loop); sequences of three runs that share ONE agent/ssh.AgentKey object (idempotent CA) with one agent fault (thorough: two) at every request index of the first or second run. quick: every single deviation; thorough: every pair. Oracle: error-kind table from the statement keyed by the first fault that fired. non-trivial = run in which a fault fired; distinct by deviation vector")
+	c.Rule("deviation-bounded fault enumeration over the real gensign.Run: default = everything succeeds; deviations = {failure, close, empty, unknown type, truncated, oversized} at every forwarded-agent request index (challenge, private-key add, list, removes, certificate adds) for CA replies of 1..3 certificates and 0/2 certificates of an earlier run; CA error/panic at every call; stub-handler faults in Name/Authenticate/Generate/CSRs/AddCertsToAgent for 1..2 keys x 1..2 requests; nil attributes / nil handler (panic inside the handler loop); agent replies of the wrong message type (the agent client panics inside the handler); after every faulted run of the real handler: no lock of the handler left held and a fault-free run on the SAME handler completes; sequences of three runs that share ONE agent/ssh.AgentKey object (idempotent CA) with one agent fault (thorough: two) at every request index of the first or second run. quick: every single deviation; thorough: every pair. Oracle: error-kind table from the statement keyed by the first fault that fired. non-trivial = run in which a fault fired; distinct by deviation vector")
 	c.Assume("well-formed agent replies of the wrong message type are excluded (x/crypto's client panics on them by design; gensign.Run's recover turns that into a Panic error, which is checked separately below)")
 	if c.ReplayCase != nil {
 		var rk c04ReuseCase
@@ -250,6 +283,9 @@ func checkC04(c *ev.Ctx) {
 				}
 			}
 		}
+	}
+	for _, idx := range []string{"0", "2", "3"} { // the challenge, the listing of the refresh, a removal
+		cases = append(cases, c04Case{Handler: "real", NCerts: 1, OldCerts: 2, AgentFault: map[string]string{idx: uagent.FaultWrongType}})
 	}
 	cases = append(cases, c04Case{Handler: "real", NCerts: 1, NilAttrs: true}, c04Case{Handler: "real", NCerts: 1, NilHandler: true}, c04Case{Handler: "stub", NCerts: 1, NKeys: 1, NCSRs: 1, NilHandler: true})
 	for _, nk := range []int{1, 2} {
